@@ -1,14 +1,14 @@
 CONSTANTS
  Mods = {"MAIN","A","B"}
  Rules = {"ra","rb","xa"}
- ImpPats = {"*","r*"}
- ExpKinds = {"all","none","r*","t:*|r:r*","f:*a|a:ra|r:xa"}
- ReKinds = {"none","*a"}
- Types = {"rules","templates"}
- MaxOps = 4
+ ImpPats = {"*"}
+ ExpKinds = {"t:*|r:r*","r:r*|t:*","f:*a|a:ra|r:xa","t:r*|f:*"}
+ ReKinds = {"none","*"}
+ Types = {"rules","all"}
+ MaxOps = 3
  MaxDecl = 2
  NoCleanup = FALSE
-INIT Init
+INIT InitRe
 NEXT Next
 CONSTRAINT Bound
 VIEW View
